@@ -57,6 +57,12 @@ CONFIGS = {
                alphabet=[I("hold", 1), I("cwait", 0), I("cwait", 2), I("csig"), I("setflag", 0, 1), I("csub", 0), I("acq", 1), I("rel", 1)] + both("ccancel") + both("cremove")),
   "cond3": dict(np=3, prio=[0, 1, 0], auto=[1, 1, 1], nres=1, poolcap=1, maxlen=3, maxtime=4,
                alphabet=[I("hold", 1), I("cwait", 0), I("cwait", 1), I("setflag", 0, 1), I("setflag", 1, 1), I("csig"), I("tadd", 1, -5)]),
+  "cond3s": dict(np=3, prio=[0, 0, 0], auto=[1, 1, 1], nres=1, poolcap=1, maxlen=3, maxtime=4,
+               alphabet=[I("hold", 1), I("cwait", 2), I("cwait", 0), I("csub", 0), I("acq", 1), I("rel", 1), I("setflag", 0, 1)]),
+  "rec2p": dict(np=2, prio=[0, 0], auto=[1, 1], nres=1, poolcap=2, maxlen=4, maxtime=5,
+               alphabet=[I("hold", 1), I("rec", 3, 1), I("rec", 3, 0), I("pacq", 1), I("pacq", 2), I("prel", 1), I("tadd", 1, -5)] + both("intr", -2, 5)),
+  "rec2pq": dict(np=2, prio=[0, 0], auto=[1, 1], nres=1, poolcap=2, maxlen=4, maxtime=4,
+               alphabet=[I("hold", 1), I("rec", 3, 1), I("rec", 3, 0), I("pacq", 1), I("pacq", 2), I("tadd", 1, -5)]),
   "rec2q": dict(np=2, prio=[0, 1], auto=[1, 1], nres=1, poolcap=2, maxlen=4, maxtime=5,
                alphabet=[I("hold", 1), I("rec", 1, 1), I("rec", 1, 0), I("acq", 1), I("rel", 1), I("pre", 1), I("exit", 11)]),
   "rec2": dict(np=2, prio=[0, 1], auto=[1, 1], nres=1, poolcap=2, maxlen=4, maxtime=5,
@@ -73,8 +79,8 @@ FOR_PROPERTY = {
   "C04": (["wait2", "wev2"], ["wait2r", "wev2s", "lost2", "end2"]),
   "C11": (["buf2"], ["buf3"]),
   "C12": (["queue2"], ["queue3"]),
-  "C13": (["cond2"], ["cond3"]),
-  "C14": (["rec2q"], ["rec2", "rec2b"]),
+  "C13": (["cond2", "cond3s"], ["cond3"]),
+  "C14": (["rec2q", "rec2pq"], ["rec2", "rec2p", "rec2b"]),
   "C05": (["mutex2"], ["mutex2p", "mutex3", "lost2"]),
   "C06": (["order3"], ["order3e", "pool3"]),
   "C07": (["pool2"], ["pool3"]),
@@ -182,6 +188,39 @@ def run_config(pid, name, v=None, timeout=3000, export=True):
         if key not in seen:
             seen.add(key); uniq.append(p)
     return r, cfg, uniq
+
+
+def conformance(pid, name, trace, v):
+    """Run the kernel model against a trace of TLC-exported programs of configuration `name`;
+    returns (programs, drifting programs).  Drift is reported, never a violation."""
+    cfg = CONFIGS[name]
+    mod = "_gen_KernelConf_%s" % name
+    with open(os.path.join(vlib.SPEC, mod + ".tla"), "w") as f:
+        f.write("---- MODULE %s ----\nEXTENDS KernelConf\n" % mod)
+        f.write("c_Prio0 == <<%s>>\n" % ", ".join(map(str, cfg["prio"])))
+        f.write("c_Auto == <<%s>>\n" % ", ".join(map(str, cfg["auto"])))
+        f.write("c_Alphabet == {%s}\n" % ", ".join(tla_tuple(t) for t in cfg["alphabet"]))
+        f.write("c_UEvs == <<%s>>\n====\n" % ", ".join("<<%d, %d, %s>>" % (u[0], u[1], tla_tuple(u[2])) for u in cfg.get("uevs", [])))
+    with open(os.path.join(vlib.SPEC, mod + ".cfg"), "w") as f:
+        f.write("SPECIFICATION CSpec\nCONSTANTS\n  NP = %d\n  Prio0 <- c_Prio0\n  Auto <- c_Auto\n  NRes = %d\n  PoolCap = %d\n"
+                "  BufCap = %d\n  OqCap = %d\n  PqCap = %d\n  UEvs <- c_UEvs\n  Alphabet <- c_Alphabet\n  MaxLen = %d\n  MaxTime = %d\nCHECK_DEADLOCK FALSE\n"
+                % (cfg["np"], cfg["nres"], cfg["poolcap"], cfg.get("bufcap", 2), cfg.get("oqcap", 1), cfg.get("pqcap", 1), cfg["maxlen"], cfg["maxtime"]))
+    try:
+        r = vlib.tlc(pid, mod, mod + ".cfg", workers=1, timeout=3000, env={"TRACE": trace}, tag="kconf_" + name, heap="12g",
+                     extra=["-noGenerateSpecTE"])
+    finally:
+        for ext in (".tla", ".cfg"):
+            try:
+                os.remove(os.path.join(vlib.SPEC, mod + ext))
+            except OSError:
+                pass
+    if r.rc != 0 or "CONSUMED" not in r.out:
+        raise vlib.MachineryError("kernel conformance run failed (%s):\n%s" % (name, r.out[-3000:]))
+    v.add_tlc(r, "KernelConf.tla: model vs recorded events, exported programs of %s" % name)
+    drifts = re.findall(r'<<\s*"DRIFT",\s*(\d+),\s*"([^"]*)",\s*"([^"]*)"\s*>>', r.out)
+    with open(trace) as f:
+        nprog = sum(1 for line in f if line.startswith('{"e":"Prog"'))
+    return nprog, drifts
 
 
 def model_check(pid, v, tier, out):
